@@ -28,6 +28,15 @@ nxscope.py (`NxscopeHandler`), dev.py (`Device`) and intf/dummy.py (`DummyDev`):
              order (read requested, read acknowledged, send, wait for ACK, write acknowledged,
              write resync flag, update device copy) with their enclosing `with` block.
 
+What a lock IS.  An attribute is one of the four locks only if it is created, in its class, by a call whose callee
+RESOLVES — through the import statements and any other module-level binding of the name (`module_bindings`) — to
+`threading.Lock` / `threading.RLock` (`from threading import Lock`, `import threading; threading.Lock()`, `… import Lock
+as L` are the same thing; `from contextlib import nullcontext as Lock`, a module-level `Lock = …`, a class `Lock` defined
+in the module are NOT: missing site naming what the name is bound to).  Likewise `Queue` must be `queue.Queue` and `Event`
+`threading.Event`.  A lock attribute that is not one of the four (`self._channels_div_lock = Lock()`) is a missing
+site naming it.  The resolved constructors are emitted as comments at the end of the generated file and as the fact
+`lockCtors`.
+
 Call resolution is by receiver and method name: `self.m()` -> same class; `self._comm.m()` ->
 CommHandler; `self.dev / self._dev / dev / self._dummydev` -> Device (methods and properties);
 `self._parse.m()` -> Parser (client side) or ParseRecv (device side), whose bodies are scanned
@@ -66,6 +75,61 @@ PURE_BUILTINS = {"len", "range", "enumerate", "isinstance", "str", "bool", "int"
                  "repr", "bytearray", "iter", "next", "reversed", "map", "filter", "hasattr", "getattr", "id"}
 PURE_METHODS = {"append", "remove", "extend", "index", "count", "join", "format", "encode", "decode", "items", "keys",
                 "values", "copy", "insert", "pop", "clear", "startswith", "endswith", "split", "strip", "sort"}
+
+
+LOCK_CTORS = ("threading.Lock", "threading.RLock")
+
+
+def module_bindings(tree):
+    """module-level name -> dotted origin, from the import statements (also inside a top-level `if` / `try`) and from
+    any other top-level binding of the name (`<assigned>` / `<defined>`): what `Lock`, `queue`, `Event` … MEAN in that
+    module.  The last binding wins, as at import time."""
+    b = {}
+
+    def walk(stmts):
+        for st in stmts:
+            if isinstance(st, ast.Import):
+                for a in st.names:
+                    if a.asname:
+                        b[a.asname] = a.name
+                    else:
+                        b[a.name.split(".")[0]] = a.name.split(".")[0]
+            elif isinstance(st, ast.ImportFrom):
+                for a in st.names:
+                    b[a.asname or a.name] = ("." * st.level) + (st.module or "") + "." + a.name
+            elif isinstance(st, (ast.FunctionDef, ast.AsyncFunctionDef, ast.ClassDef)):
+                b[st.name] = "<defined in the module>"
+            elif isinstance(st, (ast.Assign, ast.AnnAssign, ast.AugAssign)):
+                tgts = st.targets if isinstance(st, ast.Assign) else [st.target]
+                for t in tgts:
+                    for n in ast.walk(t):
+                        if isinstance(n, ast.Name):
+                            b[n.id] = "<assigned in the module>"
+            elif isinstance(st, ast.If):
+                walk(st.body)
+                walk(st.orelse)
+            elif isinstance(st, ast.Try):
+                walk(st.body)
+                for h in st.handlers:
+                    walk(h.body)
+                walk(st.orelse)
+                walk(st.finalbody)
+            elif isinstance(st, (ast.With, ast.For, ast.While)):
+                walk(st.body)
+    walk(tree.body)
+    return b
+
+
+def origin(func, bindings):
+    """dotted origin of the callee expression `func` (`Lock`, `threading.Lock`, `th.RLock` …) under the module's bindings;
+    None if the root name is not bound at module level"""
+    parts = []
+    while isinstance(func, ast.Attribute):
+        parts.append(func.attr)
+        func = func.value
+    if not isinstance(func, ast.Name) or func.id not in bindings:
+        return None
+    return ".".join([bindings[func.id]] + parts[::-1])
 
 
 def site(what):
@@ -107,7 +171,10 @@ class Src:
                     raise Missing(f"lock object in auxiliary module {rel} (line {n.lineno})")
         # attribute kinds of the main classes, from the assignments `self.X = <ctor>(...)` / `self.X = <param>`
         self.attr_kind = {}
+        self.bindings = {rel: module_bindings(self.trees[rel]) for rel in set(MAIN.values())}
+        self.lock_ctor = {}       # (cls, attr) -> dotted origin of the constructor the attribute is created with
         for cname in MAIN:
+            binds = self.bindings[MAIN[cname]]
             for n in ast.walk(self.cls[cname]):
                 tgt = val = None
                 if isinstance(n, ast.Assign) and len(n.targets) == 1:
@@ -120,7 +187,22 @@ class Src:
                 if isinstance(val, ast.Call):
                     f = val.func
                     fname = f.attr if isinstance(f, ast.Attribute) else (f.id if isinstance(f, ast.Name) else None)
-                    if fname == "Queue":
+                    org = origin(f, binds)
+                    if org in LOCK_CTORS or fname in ("Lock", "RLock"):
+                        # what the callee IS in this module decides, not what it is called
+                        self.lock_ctor[(cname, tgt.attr)] = org or f"{ast.unparse(f)} (not bound by an import of the module)"
+                        if org not in LOCK_CTORS:
+                            raise Missing(f"{cname}.{tgt.attr} = {ast.unparse(f)}() (line {val.lineno}): in {MAIN[cname]} "
+                                          f"`{ast.unparse(f)}` is {self.lock_ctor[(cname, tgt.attr)]}, not threading.Lock — "
+                                          "nothing is known to exclude anybody")
+                        if (cname, tgt.attr) not in LOCKS:
+                            raise Missing(f"unknown lock attribute {cname}.{tgt.attr} (line {val.lineno}): a lock the table "
+                                          "does not know (which state does it protect, which requests does it serialise?)")
+                        kind = ("lock",)
+                    elif fname == "Queue" and org != "queue.Queue":
+                        raise Missing(f"{cname}.{tgt.attr} = {ast.unparse(f)}() (line {val.lineno}): in {MAIN[cname]} "
+                                      f"`{ast.unparse(f)}` is {org}, not queue.Queue")
+                    elif fname == "Queue":
                         if val.args or val.keywords:
                             raise Missing(f"bounded queue {cname}.{tgt.attr} (line {val.lineno}): `put` may block")
                         q = QUEUES.get((cname, tgt.attr))
@@ -135,9 +217,10 @@ class Src:
                             raise Missing(f"unknown library thread `{nm[0].value}` ({cname}.{tgt.attr}, line {val.lineno})")
                         kind = ("thread", nm[0].value)
                     elif fname == "Event":
+                        if org != "threading.Event":
+                            raise Missing(f"{cname}.{tgt.attr} = {ast.unparse(f)}() (line {val.lineno}): `{ast.unparse(f)}` is "
+                                          f"{org}, not threading.Event")
                         kind = ("event",)
-                    elif fname in ("Lock",):
-                        kind = ("lock",)
                     elif fname in MAIN or fname in AUX:
                         kind = ("class", fname)
                 elif isinstance(val, ast.Name):
@@ -154,7 +237,7 @@ class Src:
                     self.attr_kind[(cname, tgt.attr)] = kind
         for (cname, attr), lk in LOCKS.items():
             if self.attr_kind.get((cname, attr)) != ("lock",):
-                raise Missing(f"{cname}.{attr} is not created by Lock() in the class")
+                raise Missing(f"{cname}.{attr} is not created by threading.Lock() in the class")
         for (cname, attr), q in QUEUES.items():
             if self.attr_kind.get((cname, attr)) != ("queue", q):
                 raise Missing(f"queue {cname}.{attr} = queue.Queue() not found")
@@ -359,7 +442,7 @@ class Analysis:
             sect = ctx.sect
             for it in st.items:
                 k = self.resolve(it.context_expr, ctx)
-                if k is None or k[0] != "lock" or it.optional_vars is not None:
+                if k is None or k[0] != "lock" or len(k) < 2 or it.optional_vars is not None:
                     raise Missing(f"`with {ast.unparse(it.context_expr)}` in {ctx.cur[0]}.{ctx.cur[1]} line {st.lineno} is not one of the four locks")
                 c2 = ctx.sub(held=held, sect=sect)
                 self.rec_acq(st, c2, k[1])
@@ -819,6 +902,11 @@ def gen_locks(repo):
         o.raw(f"def {n} : {t} := [\n" + ",\n".join(rows) + "\n]" if rows else f"def {n} : {t} := []")
         o.facts[n] = len(rows)
     o.raw("def table : Table := ⟨accesses, acqs, blocking, threads, exEnable, exDiv, joins⟩")
+    # import facts: what the constructor of each of the four locks IS in its module (resolved through the module's imports;
+    # anything but threading.Lock / threading.RLock is a missing site above)
+    for (cname, attr), lk in LOCKS.items():
+        o.raw(f"-- lock .{lk}: {cname}.{attr} = {s.lock_ctor.get((cname, attr))}()  [{MAIN[cname]}]")
+    o.facts["lockCtors"] = {lk: s.lock_ctor.get((cname, attr)) for (cname, attr), lk in LOCKS.items()}
     return o
 
 
